@@ -416,26 +416,50 @@ def interrupted_evaluations(ctx, on_difference=None):
     ctx.extra['interrupted_evaluations'] = {'sizes': len(chosen), 'objects': len(chosen) * nobj, 'interrupts_fired': fired}
 
 
-def _child(ctx, pyflags, codes, rows, timeout=600):
-    """run harness/lat_child.py in a child interpreter with the given interpreter options; list of records"""
+def _child(ctx, pyflags, codes, rows, timeout=600, logging_cfg=None, env_extra=None):
+    """run harness/lat_child.py in a child interpreter with the given interpreter options / logging configuration;
+    list of records"""
     import sys
     env = dict(os.environ)
     env.pop('PYTHONOPTIMIZE', None)
+    env.pop('QECSIM_CFG', None)
     env['PYTHONPATH'] = os.path.join(os.environ.get('VERIF_REPO', '/repo'), 'src')
     env.setdefault('PYTHONHASHSEED', '0')
     env['PYTHONDONTWRITEBYTECODE'] = '1'
+    env.update(env_extra or {})
     p = subprocess.run([sys.executable] + list(pyflags) + ['-W', 'ignore', os.path.join(VERIF, 'harness', 'lat_child.py')],
-                       input=json.dumps({'rows': rows, 'codes': codes}), capture_output=True, text=True, timeout=timeout,
-                       env=env, cwd=BUILD)
+                       input=json.dumps({'rows': rows, 'codes': codes, 'logging': logging_cfg}), capture_output=True, text=True,
+                       timeout=timeout, env=env, cwd=BUILD)
     lines = [json.loads(l) for l in p.stdout.split('\n') if l.startswith('{')]
+    lines = [l for l in lines if 'log_records' not in l]
     return p.returncode, lines, p.stderr[-1500:]
 
 
-def optimised_mode(ctx, on_difference=None):
-    """INTERPRETER CONFIGURATION.  The documented optimised mode (`python -O`, thorough tier also -OO): a child interpreter
-    computes stabilizers / logical_xs / logical_zs / logicals / n_k_d / validate() of every family size of the checks'
-    range and of the basic codes; they must equal what this (normal) interpreter publishes, which the family checks compare
-    with the model row by row.  on_difference(replay, n_k_d, S) is called with the child's stabilizers of a differing size."""
+LOGGING_INI = """[loggers]
+keys=root,qecsim
+[handlers]
+keys=sink
+[formatters]
+keys=plain
+[logger_root]
+level=WARNING
+handlers=sink
+[logger_qecsim]
+level=%s
+handlers=sink
+qualname=qecsim
+propagate=0
+[handler_sink]
+class=FileHandler
+args=(os.devnull,)
+formatter=plain
+[formatter_plain]
+format=%%(asctime)s %%(name)s %%(levelname)s %%(message)s
+"""
+
+
+def _here_matrices(ctx):
+    """what THIS (normal, default logging) interpreter publishes for every family size and the basic codes"""
     from harness.lat_child import matrix_digest
     from qecsim.models.basic import FiveQubitCode, SteaneCode
     codes, here = [], {}
@@ -450,49 +474,148 @@ def optimised_mode(ctx, on_difference=None):
                                         matrix_digest((code.stabilizers, code.logical_xs, code.logical_zs)))
         except Exception:  # noqa  (reported as matrices-raise by the cold histories / family checks)
             here[(fam, tuple(args))] = None
-    for flags in ctx.pick((['-O'],), (['-O'], ['-OO'])):
-        mode = 'python ' + ' '.join(flags)
-        rc, recs, err = _child(ctx, flags, codes, False)
-        head = recs[0].get('flags', {}) if recs else {}
-        ok = rc == 0 and len(recs) == len(codes) + 1 and head.get('optimize', 0) >= 1 and head.get('debug') is False
-        ctx.obligation('child interpreter (%s) returned the matrices of all %d codes' % (mode, len(codes)), ok, err)
-        ctx.notes.append('interpreter configuration: matrices of %d codes recomputed under %s and compared' % (len(codes), mode))
-        differing = []
-        for rec in recs[1:]:
-            key = (rec['family'], tuple(rec['args']))
-            rep = {'family': rec['family'], 'size': rec['args'], 'interpreter': mode}
-            ctx.count(('optimised', mode, key), True, 'optimised-mode/' + rec['family'], rep if key == ('rotplanar', (3, 4)) else None)
-            if here.get(key) is None:
+    return codes, here, cls_of
+
+
+def _configurations(ctx, configs, on_difference=None):
+    """Each configuration = dict(mode (text), flags (interpreter options), logging (None | dict for lat_child), ini (None |
+    level for a logging_qecsim.ini under $QECSIM_CFG), key (violation key), head_ok (predicate on the child's first line)).
+    The children run concurrently; every one recomputes stabilizers / logical_xs / logical_zs / logicals / n_k_d /
+    validate() of every family size of the checks' range and of the basic codes; they must equal what this interpreter
+    publishes (which the family checks compare with the model row by row).  on_difference(replay, n_k_d, S) gets the
+    child's stabilizers of a differing size."""
+    import shutil
+    import tempfile
+    from concurrent.futures import ThreadPoolExecutor
+    codes, here, cls_of = _here_matrices(ctx)
+    tmp = tempfile.mkdtemp(prefix='verif_latcfg_')
+    try:
+        for k, cfg in enumerate(configs):
+            cfg['env'] = {}
+            if cfg.get('ini'):
+                d = os.path.join(tmp, 'cfg%d' % k)
+                os.makedirs(d)
+                with open(os.path.join(d, 'logging_qecsim.ini'), 'w') as f:
+                    f.write(LOGGING_INI % cfg['ini'])
+                cfg['env'] = {'QECSIM_CFG': d}
+
+        def first(cfg):
+            try:
+                return _child(ctx, cfg['flags'], codes, False, logging_cfg=cfg.get('logging'), env_extra=cfg['env'])
+            except Exception as e:  # noqa
+                return -1, [], repr(e)[:500]
+        with ThreadPoolExecutor(max_workers=min(6, len(configs))) as ex:
+            results = list(ex.map(first, configs))
+        for cfg, (rc, recs, err) in zip(configs, results):
+            mode, key = cfg['mode'], cfg['key']
+            head = recs[0].get('flags', {}) if recs else {}
+            ok = rc == 0 and len(recs) == len(codes) + 1 and bool(cfg['head_ok'](head))
+            ctx.obligation('child interpreter (%s) returned the matrices of all %d codes' % (mode, len(codes)), ok,
+                           err + ' ' + json.dumps(head))
+            ctx.notes.append('run configuration: matrices of %d codes recomputed under %s and compared' % (len(codes), mode))
+            differing = []
+            for rec in recs[1:]:
+                ckey = (rec['family'], tuple(rec['args']))
+                rep = {'family': rec['family'], 'size': rec['args'], 'configuration': mode}
+                ctx.count((key, mode, ckey), True, key.replace('-matrices', '') + '/' + rec['family'],
+                          rep if ckey == ('rotplanar', (3, 4)) else None)
+                if here.get(ckey) is None:
+                    continue
+                if 'error' in rec:
+                    _viol(ctx, key, 'under %s the matrices of an accepted size raise %s' % (mode, rec['error']), rep)
+                elif (rec['n_k_d'], rec['digest']) != here[ckey] or rec.get('validate') != 'ok':
+                    differing.append(ckey)
+            if not differing:
                 continue
-            if 'error' in rec:
-                _viol(ctx, 'optimised-mode-matrices', 'under %s the matrices of an accepted size raise %s' % (mode, rec['error']), rep)
-            elif (rec['n_k_d'], rec['digest']) != here[key] or rec.get('validate') != 'ok':
-                differing.append(key)
-        if differing:
-            rc, recs, err = _child(ctx, flags, [[f, list(a)] for f, a in differing[:12]], True)
+            # one representative set per family (smallest sizes first), with the rows
+            differing.sort(key=lambda t: (t[0], sum(t[1]), t[1]))
+            chosen, per = [], {}
+            for f, a in differing:
+                per[f] = per.get(f, 0) + 1
+                if per[f] <= 4:
+                    chosen.append((f, a))
+            rc, recs, err = _child(ctx, cfg['flags'], [[f, list(a)] for f, a in chosen[:16]], True,
+                                   logging_cfg=cfg.get('logging'), env_extra=cfg['env'])
             for rec in recs[1:]:
                 if 'rows' not in rec:
                     continue
                 fam, args = rec['family'], tuple(rec['args'])
                 code = cls_of[fam](*args)
                 n = int(code.n_k_d[0])
-                mats = {nm: np.array([[int(ch) for ch in bin(int(h, 16))[2:].zfill(2 * n)] for h in rows], dtype=np.int64).reshape(len(rows), 2 * n)
+                mats = {nm: np.array([[int(ch) for ch in bin(int(h, 16))[2:].zfill(2 * n)] for h in rows],
+                                     dtype=np.int64).reshape(len(rows), 2 * n)
                         for nm, rows in rec['rows'].items()}
-                first = {}
+                first_diff = {}
                 for nm in ('stabilizers', 'logical_xs', 'logical_zs'):
                     mine = np.asarray(getattr(code, nm))
                     if mine.shape != mats[nm].shape:
-                        first[nm] = 'shape %s vs %s' % (list(mats[nm].shape), list(mine.shape))
+                        first_diff[nm] = 'shape %s vs %s' % (list(mats[nm].shape), list(mine.shape))
                     elif not np.array_equal(mine, mats[nm]):
                         i = int(np.flatnonzero((mine != mats[nm]).any(axis=1))[0])
-                        first[nm] = {'row': i, 'optimised': rec['rows'][nm][i], 'normal': ''.join(str(int(v)) for v in mine[i])}
+                        first_diff[nm] = {'row': i, 'configured': rec['rows'][nm][i], 'normal': ''.join(str(int(v)) for v in mine[i])}
                 probs = [p[0] + ': ' + p[1] for p in validity_problems(rec['n_k_d'], mats['stabilizers'], mats['logical_xs'], mats['logical_zs'])]
-                _viol(ctx, 'optimised-mode-matrices', 'under %s the code publishes matrices / n_k_d different from the normal '
-                              'interpreter' % mode, {'family': fam, 'size': list(args), 'interpreter': mode, 'n_k_d': rec['n_k_d'],
-                                                     'n_k_d_normal': [int(v) for v in code.n_k_d], 'validate': rec.get('validate'),
-                                                     'first_difference': first, 'property_on_optimised_matrices': probs[:4]})
+                rep = {'family': fam, 'size': list(args), 'configuration': mode}
+                _viol(ctx, key, 'under %s the code publishes matrices / n_k_d different from the normal interpreter with default '
+                      'logging' % mode, dict(rep, n_k_d=rec['n_k_d'], n_k_d_normal=[int(v) for v in code.n_k_d],
+                                             validate=rec.get('validate'), first_difference=first_diff,
+                                             property_on_configured_matrices=probs[:4]))
                 if on_difference is not None:
-                    on_difference({'family': fam, 'size': list(args), 'interpreter': mode}, rec['n_k_d'], mats['stabilizers'])
+                    on_difference(rep, rec['n_k_d'], mats['stabilizers'])
+    finally:
+        shutil.rmtree(tmp, ignore_errors=True)
+
+
+def logging_configurations(ctx, on_difference=None):
+    """LOGGING CONFIGURATION as part of the run configuration of code construction.  Child interpreters with the root
+    logger at DEBUG / at INFO, the `qecsim` logger at DEBUG (root left alone), and the documented route ($QECSIM_CFG/
+    logging_qecsim.ini with level DEBUG, loaded by qecsim.util.init_logging() as the command line does); thorough tier
+    also `python -O` combined with DEBUG and INFO on the `qecsim` logger.  Records are formatted, nothing is printed.
+    A difference from what this interpreter publishes is a violation (logging-config-matrices)."""
+    def enabled(head):
+        lg = head.get('logging') or {}
+        return lg.get('enabled_for_level') is True
+
+    def ini_ok(head):
+        return (head.get('logging') or {}).get('enabled_for_level') is True
+    configs = [
+        {'mode': 'logging: root logger at DEBUG (logging.basicConfig(level=DEBUG) equivalent)', 'flags': [],
+         'logging': {'target': 'root', 'level': 'DEBUG'}, 'head_ok': enabled},
+        {'mode': 'logging: logger qecsim at DEBUG, root unchanged', 'flags': [],
+         'logging': {'target': 'qecsim', 'level': 'DEBUG'}, 'head_ok': enabled},
+        {'mode': 'logging: root logger at INFO', 'flags': [], 'logging': {'target': 'root', 'level': 'INFO'}, 'head_ok': enabled},
+        {'mode': 'logging: $QECSIM_CFG/logging_qecsim.ini with logger qecsim at DEBUG, qecsim.util.init_logging()', 'flags': [],
+         'logging': {'target': 'ini', 'level': 'DEBUG'}, 'ini': 'DEBUG', 'head_ok': ini_ok},
+    ]
+    if not ctx.quick:
+        configs += [
+            {'mode': 'python -O with logging: root logger at DEBUG', 'flags': ['-O'],
+             'logging': {'target': 'root', 'level': 'DEBUG'},
+             'head_ok': lambda h: enabled(h) and h.get('optimize', 0) >= 1 and h.get('debug') is False},
+            {'mode': 'python -OO with logging: logger qecsim at DEBUG', 'flags': ['-OO'],
+             'logging': {'target': 'qecsim', 'level': 'DEBUG'},
+             'head_ok': lambda h: enabled(h) and h.get('optimize', 0) >= 2},
+            {'mode': 'logging: logger qecsim at INFO, root unchanged', 'flags': [],
+             'logging': {'target': 'qecsim', 'level': 'INFO'}, 'head_ok': enabled},
+            {'mode': 'logging: $QECSIM_CFG/logging_qecsim.ini with logger qecsim at INFO, qecsim.util.init_logging()', 'flags': [],
+             'logging': {'target': 'ini', 'level': 'INFO'}, 'ini': 'INFO', 'head_ok': ini_ok},
+        ]
+    for c in configs:
+        c['key'] = 'logging-config-matrices'
+    _configurations(ctx, configs, on_difference)
+
+
+def optimised_mode(ctx, on_difference=None, include_logging=True):
+    """INTERPRETER CONFIGURATION.  The documented optimised mode (`python -O`, thorough tier also -OO): a child interpreter
+    computes stabilizers / logical_xs / logical_zs / logicals / n_k_d / validate() of every family size of the checks'
+    range and of the basic codes; they must equal what this (normal) interpreter publishes, which the family checks compare
+    with the model row by row.  on_difference(replay, n_k_d, S) is called with the child's stabilizers of a differing size.
+    include_logging: also the logging configurations (logging_configurations), unless the caller runs them itself."""
+    configs = [{'mode': 'python ' + ' '.join(flags), 'flags': flags, 'logging': None, 'key': 'optimised-mode-matrices',
+                'head_ok': lambda h: h.get('optimize', 0) >= 1 and h.get('debug') is False}
+               for flags in ctx.pick((['-O'],), (['-O'], ['-OO']))]
+    _configurations(ctx, configs, on_difference)
+    if include_logging:
+        logging_configurations(ctx, on_difference)
 
 
 def extreme_sizes(ctx):
